@@ -336,9 +336,9 @@ impl SyntaxTemplate {
                 }
                 let substituded_list = substituted_pair_items.into_iter().collect();
 
-                Ok(vec![
-                    DatumBody::Pair(Box::new(substituded_list)).locate(location)
-                ])
+                // data built from a template carry no location: a location denotes a
+                // position in the text being evaluated, not in the macro definition
+                Ok(vec![DatumBody::Pair(Box::new(substituded_list)).no_locate()])
             }
             SyntaxTemplateBody::Vector(vec) => {
                 let mut substituted_vec = Vec::new();
@@ -348,14 +348,14 @@ impl SyntaxTemplate {
                         substitutions,
                     )?)
                 }
-                Ok(vec![DatumBody::Vector(substituted_vec).locate(location)])
+                Ok(vec![DatumBody::Vector(substituted_vec).no_locate()])
             }
             SyntaxTemplateBody::Identifier(var) => match substitutions.get(var) {
                 Some((single_datum, _)) => Ok(vec![single_datum.clone()]),
-                None => Ok(vec![DatumBody::Symbol(var.clone()).locate(location)]),
+                None => Ok(vec![DatumBody::Symbol(var.clone()).no_locate()]),
             },
             SyntaxTemplateBody::Primitive(p) => {
-                Ok(vec![DatumBody::Primitive(p.clone()).locate(location)])
+                Ok(vec![DatumBody::Primitive(p.clone()).no_locate()])
             }
             SyntaxTemplateBody::Ellipsis => {
                 located_error!(SyntaxError::UnexpectedTemplate(self.clone()), location)
@@ -387,7 +387,7 @@ impl SyntaxTemplate {
                     DatumBody::Pair(Box::new(GenericPair::from_pair_iter(
                         new_list_elements.into_iter(),
                     )?))
-                    .locate(template.location),
+                    .no_locate(),
                 )
             }
             SyntaxTemplateBody::Vector(vec) => {
@@ -398,7 +398,7 @@ impl SyntaxTemplate {
                         None => return Ok(None),
                     }
                 }
-                Some(DatumBody::Vector(new_vec).locate(template.location))
+                Some(DatumBody::Vector(new_vec).no_locate())
             }
             SyntaxTemplateBody::Identifier(var) => match substitutions.get(var) {
                 Some((_, vec)) => {
@@ -408,10 +408,10 @@ impl SyntaxTemplate {
                         vec.get(item_index).cloned()
                     }
                 }
-                None => Some(DatumBody::Symbol(var.clone()).locate(template.location)),
+                None => Some(DatumBody::Symbol(var.clone()).no_locate()),
             },
             SyntaxTemplateBody::Primitive(p) => {
-                Some(DatumBody::Primitive(p.clone()).locate(template.location))
+                Some(DatumBody::Primitive(p.clone()).no_locate())
             }
             SyntaxTemplateBody::Ellipsis => {
                 return located_error!(
